@@ -100,7 +100,7 @@ func init() {
 	addControls(
 		Control{Name: "contains-misses-needle-at-the-very-end", Props: []string{"C14", "C06"}, File: "parse.go",
 			Old: "\tfor i := 0; i <= len(b)-len(search); i++ {\n\t\tif hasBytePrefix(b[i:], search) {", New: "\tfor i := 0; i < len(b)-len(search); i++ {\n\t\tif hasBytePrefix(b[i:], search) {", Expect: "WINDOW-SEARCH/contains",
-			Why: "the defect repaired in /repo: '<!--\\n\\t-->' without a final line ending copied the tab through, with one it rendered four spaces"},
+			Why: "the defect repaired by /repo 8c34e2a: '<!--\\n\\t-->' without a final line ending copied the tab through, with one it rendered four spaces"},
 		Control{Name: "neg-contains-via-bytes-index", Props: []string{"C14", "C06"}, File: "parse.go", Negative: true,
 			Old: "\tfor i := 0; i <= len(b)-len(search); i++ {\n\t\tif hasBytePrefix(b[i:], search) {\n\t\t\treturn true\n\t\t}\n\t}\n\treturn false", New: "\treturn bytes.Index(b, []byte(search)) >= 0"},
 	)
